@@ -262,6 +262,10 @@ func (r SendErrReason) String() string {
 // Returns:
 //   - true if the error is temporary, false otherwise.
 func isTempError(err error) bool {
+	rootErr := errors.Unwrap(err)
+	if rootErr != nil {
+		err = rootErr
+	}
 	return err.Error()[0] == '4'
 }
 
